@@ -21,6 +21,15 @@ def pil_tables(text):
         elif l[0] == "structure": out[("struct", l[2])] = (len(l[4].replace("+", "")), l[4])
     return out
 
+def port_struct(case):
+    """some component used by the system declares an input port with a structure (`x(S) -> ..`)"""
+    g = case.get("_gen")
+    if g is None: return False
+    for it in g.items.values():
+        if it["kind"] == "comp" and any(p[2] for p in it["prog"]["decl"][1]):
+            return True
+    return False
+
 def run(tier, seed, build):
     rng = random.Random(seed * 283 + 16)
     n = 14 if tier == "quick" else 150
@@ -28,6 +37,7 @@ def run(tier, seed, build):
     failures = []; nontrivial = set()
     dist = {"round_trips": 0, "with_fixed": 0, "with_dummy_strand": 0, "earlier_compiles": {}, "finished_both_ways": 0, "objects_compared": 0}
     samples = []
+    forced_port_struct = False
     try:
         for ti in range(n):
             if rng.random() < 0.5:
@@ -39,6 +49,11 @@ def run(tier, seed, build):
                 target = {"files": {"prog.comp": pepper.comp_text(rng, prog)}, "includes": [], "base": "prog", "args": [], "_prog": prog}
             else:
                 target = c02.gen_case(rng)
+                if not forced_port_struct:       # once per run: a system in which some component input port carries a structure
+                    for _ in range(400):
+                        if port_struct(target): break
+                        target = c02.gen_case(rng)
+                    forced_port_struct = True
             root = os.path.join(wd, "t%d" % ti); c18.write_project(root, target["files"])
             try:
                 if "_prog" in target:
